@@ -8,6 +8,8 @@ set -u
 P=$1; D=$(realpath "$2"); WT=$3; shift 3
 export GOFLAGS=-mod=mod GOPROXY=off
 cd "$WT" || exit 2
+OV=""
+if grep -q "pkg/koordlet" "$D/patch.diff" && [ -f /tmp/ov-$P/overlay.json ]; then OV="-overlay /tmp/ov-$P/overlay.json"; fi
 git checkout -q -- . 2>/dev/null
 pkgs=$(grep '^+++ b/' "$D/patch.diff" | sed 's#^+++ b/##; s#\t.*##' | xargs -n1 dirname | sort -u | sed 's#^#./#')
 demo_pkg=$(grep -m1 -o 'pkg/[A-Za-z0-9_/.-]*' "$D/demo_test.go" | head -1)
@@ -17,14 +19,14 @@ echo "== packages touched: $pkgs ; demo package: $demo_pkg"
 cp "$D/demo_test.go" "$WT/$demo_pkg/zz_seeded_demo_test.go"
 run=$(grep -m1 -o 'Test[A-Za-z0-9_]*' "$D/demo_test.go" | head -1)
 echo "== demo WITHOUT the change (must pass)"
-go test -vet=off -count=1 -run "$run" "./$demo_pkg" 2>&1 | tail -3
+go test -vet=off -count=1 $OV -run "$run" "./$demo_pkg" 2>&1 | tail -3
 git apply "$D/patch.diff" || { echo "PATCH DOES NOT APPLY"; rm -f "$WT/$demo_pkg/zz_seeded_demo_test.go"; exit 2; }
 echo "== demo WITH the change (must fail)"
-go test -vet=off -count=1 -run "$run" "./$demo_pkg" 2>&1 | tail -3
+go test -vet=off -count=1 $OV -run "$run" "./$demo_pkg" 2>&1 | tail -3
 rm -f "$WT/$demo_pkg/zz_seeded_demo_test.go"
 echo "== existing tests of the touched packages WITH the change (must pass)"
-go build ./pkg/... 2>&1 | tail -3
-go test -vet=off -count=1 $pkgs 2>&1 | tail -5
+go build $OV ./pkg/... 2>&1 | tail -3
+go test -vet=off -count=1 $OV $pkgs 2>&1 | tail -5
 git checkout -q -- .
 echo "== registered check against the change"
 cd /verif && bin/verifctl check "$P" --no-evidence --patch "$D/patch.diff" "$@" 2>&1 | grep -v '^KNOWN-FINDING' | cut -c1-300 | head -12
